@@ -155,48 +155,64 @@ def engJoin (m : Matching) (keepName : Bool) (high low : List Labels) : Join :=
           highIdx := j.highIdx.set h.1 (some oid)
           lowIdx := lowIn.foldl (fun li l => li.set l.1 (li.getD l.1 [] ++ [oid])) j.lowIdx }) j) init
 
-/-- `execBinaryOperation` for one step (a fresh table: step timestamps never repeat) -/
-def engVectorBinop (op : String) (bool : Bool) (card : Card) (j : Join) (lhs rhs : IdVec V) :
-    Except Err (IdVec V) :=
-  let lhsOuts := fun (id : Nat) =>
-    if card == .oneToMany then j.lowIdx.getD id [] else (j.highIdx.getD id none).toList
-  let rhsOuts := fun (id : Nat) =>
-    if card == .oneToMany then (j.highIdx.getD id none).toList else j.lowIdx.getD id []
-  -- pass 1: left-hand samples fill output slots
-  let p1 : Except Err (List (Nat × V)) := lhs.foldl (fun acc x =>
+/-! `execBinaryOperation` for one step (a fresh table: step timestamps never repeat), in two
+passes: the left-hand samples fill output slots, then every right-hand sample probes its slots. -/
+
+abbrev JState (V : Type) := IdVec V × List Nat
+
+def lhsOutsOf (card : Card) (j : Join) : Nat → List Nat :=
+  fun id => if card == .oneToMany then j.lowIdx.getD id [] else (j.highIdx.getD id none).toList
+
+def rhsOutsOf (card : Card) (j : Join) : Nat → List Nat :=
+  fun id => if card == .oneToMany then (j.highIdx.getD id none).toList else j.lowIdx.getD id []
+
+/-- pass 1: left-hand samples fill output slots -/
+def lhsPass (card : Card) (j : Join) (lhs : IdVec V) : Except Err (List (Nat × V)) :=
+  lhs.foldl (fun acc x =>
     match acc with
     | .error e => .error e
     | .ok slots =>
-      (lhsOuts x.1).foldl (fun acc o =>
+      (lhsOutsOf card j x.1).foldl (fun acc o =>
         match acc with
         | .error e => .error e
         | .ok slots =>
           if card != .manyToOne && slots.any (·.1 == o) then .error .manyToMany
           else .ok (slots ++ [(o, x.2)])) (.ok slots)) (.ok [])
-  match p1 with
+
+/-- for many-to-one a later left sample overwrites an earlier one in the same slot -/
+def slotValOf (slots : List (Nat × V)) : Nat → Option V :=
+  fun o => ((slots.filter (·.1 == o)).getLast?).map (·.2)
+
+/-- one probe of pass 2: right-hand value `xv` against output slot `o` -/
+def vbStep (op : String) (bool : Bool) (card : Card) (slotVal : Nat → Option V) (st : JState V) (o : Nat)
+    (xv : V) : Except Err (JState V) :=
+  match st with
+  | (out, seen) =>
+    match slotVal o with
+    | none => .ok (out, seen)
+    | some lv =>
+      if card != .oneToMany && seen.contains o then .error .manyToMany
+      else
+        let (value, keep) := elemBinop op lv xv
+        let seen := o :: seen
+        if bool then .ok (out ++ [(o, ofBool keep)], seen)
+        else if keep then .ok (out ++ [(o, value)], seen)
+        else .ok (out, seen)
+
+def innerFold (stepf : JState V → Nat → V → Except Err (JState V)) (xv : V) (os : List Nat)
+    (acc : Except Err (JState V)) : Except Err (JState V) :=
+  os.foldl (fun acc o => match acc with | .error e => .error e | .ok st => stepf st o xv) acc
+
+def outerFold (stepf : JState V → Nat → V → Except Err (JState V)) (outsOf : Nat → List Nat)
+    (rhs : IdVec V) (acc : Except Err (JState V)) : Except Err (JState V) :=
+  rhs.foldl (fun acc x => match acc with | .error e => .error e | .ok st => innerFold stepf x.2 (outsOf x.1) (.ok st)) acc
+
+def engVectorBinop (op : String) (bool : Bool) (card : Card) (j : Join) (lhs rhs : IdVec V) :
+    Except Err (IdVec V) :=
+  match lhsPass card j lhs with
   | .error e => .error e
   | .ok slots =>
-    -- for many-to-one a later left sample overwrites an earlier one in the same slot
-    let slotVal := fun (o : Nat) => ((slots.filter (·.1 == o)).getLast?).map (·.2)
-    let p2 : Except Err (IdVec V × List Nat) := rhs.foldl (fun acc x =>
-      match acc with
-      | .error e => .error e
-      | .ok st =>
-        (rhsOuts x.1).foldl (fun acc o =>
-          match acc with
-          | .error e => .error e
-          | .ok (out, seen) =>
-            match slotVal o with
-            | none => .ok (out, seen)
-            | some lv =>
-              if card != .oneToMany && seen.contains o then .error .manyToMany
-              else
-                let (value, keep) := elemBinop op lv x.2
-                let seen := o :: seen
-                if bool then .ok (out ++ [(o, ofBool keep)], seen)
-                else if keep then .ok (out ++ [(o, value)], seen)
-                else .ok (out, seen)) (.ok st)) (.ok ([], []))
-    p2.map (·.1)
+    (outerFold (vbStep op bool card (slotValOf slots)) (rhsOutsOf card j) rhs (.ok ([], []))).map (·.1)
 
 /-! ### the operator tree -/
 
